@@ -26,7 +26,8 @@ def check_property(pid, prop, tier, only=None, keep=False):
     notes = []
     all_h = prop.get("kani", [])
     harnesses = [h for h in all_h if (tier == "thorough" or h.tier == "quick") and (not h.twin or tier == "thorough") and not h.search_only]
-    twins = [h for h in all_h if (h.twin and tier != "thorough") or h.search_only]
+    # quick tier: only the twins marked tier="quick" step in when Verus cannot decide (the larger ones are thorough-only)
+    twins = [h for h in all_h if (h.twin and tier != "thorough" and h.tier == "quick") or h.search_only]
     units = [u for u in prop.get("verus", []) if tier == "thorough" or u.tier == "quick"]
     if only:
         keys = only.split(",")
